@@ -1,6 +1,7 @@
 package vc
 
 import (
+	"sort"
 	"go/ast"
 	"regexp"
 	"fmt"
@@ -272,6 +273,61 @@ func genC18Resolve(e *Engine, pkg *ssa.Package, lists []string, size int64) ([]F
 		ldc.Modifies = []string{"nothing"}
 		if fn := ResolveFunc(pkg, ldc.Key); fn != nil {
 			e.Contracts[fullName(fn)] = ldc
+		}
+	}
+	// helpers that walk the chain of targets being resolved on behalf of the entry point
+	// (`func (c *inheritChain) contains(name string) bool` after an "extract helper"
+	// refactoring): same walk invariant, and "the head matches => true"
+	if lf := ResolveFunc(pkg, "(*Loader).load"); lf != nil && len(lf.Params) == 3 {
+		chainT := lf.Params[2].Type()
+		if pt, ok := chainT.Underlying().(*types.Pointer); ok {
+			if stt, ok := pt.Elem().Underlying().(*types.Struct); ok && stt.NumFields() >= 1 {
+				nameF := stt.Field(0).Name()
+				var cands []*ssa.Function
+				for _, mem := range pkg.Members {
+					if f, ok := mem.(*ssa.Function); ok {
+						cands = append(cands, f)
+					}
+				}
+				ms := pkg.Prog.MethodSets.MethodSet(chainT)
+				for i := 0; i < ms.Len(); i++ {
+					if f := pkg.Prog.MethodValue(ms.At(i)); f != nil && f.Pkg == pkg {
+						cands = append(cands, f)
+					}
+				}
+				sort.Slice(cands, func(i, j int) bool { return cands[i].String() < cands[j].String() })
+				for _, f := range cands {
+					if f == lf || len(f.Params) != 2 || !types.Identical(f.Params[0].Type(), chainT) || !hasLoop(f) {
+						continue
+					}
+					if b, ok := f.Params[1].Type().Underlying().(*types.Basic); !ok || b.Info()&types.IsString == 0 {
+						continue
+					}
+					res := f.Signature.Results()
+					if res.Len() != 1 {
+						continue
+					}
+					if b, ok := res.At(0).Type().Underlying().(*types.Basic); !ok || b.Info()&types.IsBoolean == 0 {
+						continue
+					}
+					key := f.Name()
+					if f.Signature.Recv() != nil {
+						key = "(*" + pt.Elem().(*types.Named).Obj().Name() + ")." + f.Name()
+					}
+					hc := mk(key, false)
+					cp, np := f.Params[0].Name(), f.Params[1].Name()
+					head, lv := cp, firstLoopVar(f)
+					if lv == "" {
+						head, lv = "old("+cp+")", cp
+					}
+					add(hc, "invariant", "walk", "true", 1)
+					add(hc, "invariant", "head-did-not-match", fmt.Sprintf("%s != nil && %s != %s ==> %s.%s != %s", head, lv, head, head, nameF, np), 1)
+					add(hc, "ensures", "head-matches", fmt.Sprintf("old(%s) != nil && old(%s.%s) == %s ==> result", cp, cp, nameF, np), 0)
+					hc.Modifies = []string{"nothing"}
+					hc.Arith = "bv"
+					reg(hc)
+				}
+			}
 		}
 	}
 	recvName := func(key string) string {
